@@ -6,6 +6,7 @@ use vstd::iset::*;
 use vstd::arithmetic::power2::*;
 use vstd::arithmetic::div_mod::*;
 use vstd::arithmetic::mul::*;
+use std::hash::Hash;
 verus! {
 global size_of usize == 8;
 
@@ -106,11 +107,13 @@ proof fn lemma_visited_bound(visited: Set<int>, occupied: Set<int>, size: int)
 // ================= theta/hash_table.rs find_in_entries (real code + overlay) =================
 const STRIDE_HASH_BITS : u8 = 7 ;
 
+
 exec const STRIDE_MASK : u64 ensures STRIDE_MASK == 127 {
 proof {
 assert ( ( 1u64 << 7u64 ) - 1 == 127 ) by ( bit_vector ) ;
 }
 ( 1 << STRIDE_HASH_BITS ) - 1 }
+
 
 
 spec fn occ64(es: Seq<u64>) -> Set<int> { Set::range(0, es.len() as int).filter(|i: int| es[i] != 0) }
@@ -153,6 +156,7 @@ assert ( l < 64 ==> ( ( key >> l ) & 127 ) <= 127 ) by ( bit_vector ) ;
 assert ( ( key >> ( lg_size as u64 ) ) == ( key >> lg_size ) ) ;
 }
 ( 2 * ( ( key >> ( lg_size ) ) & STRIDE_MASK ) + 1 ) as usize }
+
 
 
 spec fn home(key: u64, len: int) -> int { ((key as usize) & ((len - 1) as usize)) as int }
@@ -275,6 +279,7 @@ j = j + 1 ;
 }
 
 
+
 pub assume_specification<T: Ord> [ core::cmp::min::<T> ] (a: T, b: T) -> (r: T)
   ensures T::obeys_cmp_spec() ==> (r == (if a.cmp_spec(&b) == core::cmp::Ordering::Greater { b } else { a }));
 // ================= table-level specs =================
@@ -376,21 +381,102 @@ proof fn lemma_probe_in_range(p0: int, s: int, t: int, len: int)
     lemma_mod_bound(p0 + t * s, len);
 }
 
+
+// ================= constants, opaque leaves, initial size =================
+const MAX_THETA : u64 = i64 :: MAX as u64 ;
+
+
+const MIN_LG_K : u8 = 5 ;
+
+
+// initial theta for a sampling probability: float code, by contract (KX leaf); NOTE: nothing says r > 0 for p in (0,1]: p = 1e-20 gives 0
+uninterp spec fn theta0_spec(p: f32) -> u64;
+#[verifier::external_body]
+fn starting_theta_from_sampling_probability(sampling_probability: f32) -> (r: u64)
+  ensures r == theta0_spec(sampling_probability), r <= MAX_THETA
+{ unimplemented!() }
+
+// the generic hashing (MurmurHash3X64128 over T: Hash) is a leaf of C16; only the screening tail is verified here
+uninterp spec fn hash_spec<T>(seed: u64, v: T) -> u64;
+#[verifier::external_body]
+fn vx_hash128<T: Hash>(seed: u64, value: T) -> (r: (u64, u64))
+  ensures r.0 == hash_spec(seed, value)
+{ unimplemented!() /* let mut hasher = MurmurHash3X64128::with_seed(seed); value.hash(&mut hasher); hasher.finish128() */ }
+
+pub assume_specification<T: Clone> [ <[T]>::fill ] (s: &mut [T], value: T)
+  ensures final(s)@.len() == old(s)@.len(), forall|i: int| 0 <= i < final(s)@.len() ==> cloned(value, #[trigger] final(s)@[i]);
+
+spec fn ssm_spec(lg_target: u8, lg_min: u8, lg_rf: u8) -> u8 {
+    if lg_target <= lg_min { lg_min } else if lg_rf == 0 { lg_target } else { (((lg_target - lg_min) % (lg_rf as int)) + lg_min) as u8 }
+}
+fn starting_sub_multiple ( lg_target : u8 , lg_min : u8 , lg_resize_factor : u8 ) -> ( r : u8 ) ensures r == ssm_spec ( lg_target , lg_min , lg_resize_factor ) ,
+/*@C04.start_size*/ r >= lg_min && ( lg_target > lg_min ==> r <= lg_target && ( lg_resize_factor == 0 ==> r == lg_target ) && ( lg_resize_factor > 0 ==> r < lg_min + lg_resize_factor && ( lg_target - r ) % ( lg_resize_factor as int ) == 0 ) ) , {
+if lg_target <= lg_min {
+lg_min }
+else if lg_resize_factor == 0 {
+lg_target }
+else {
+proof {
+let d = ( lg_target - lg_min ) as int ;
+let f = lg_resize_factor as int ;
+lemma_fundamental_div_mod ( d , f ) ;
+lemma_mod_bound ( d , f ) ;
+lemma_mod_multiples_basic ( d / f , f ) ;
+assert ( f * ( d / f ) == ( d / f ) * f ) by ( nonlinear_arith ) ;
+}
+( ( lg_target - lg_min ) % lg_resize_factor ) + lg_min }
+}
+
+spec fn init_lg(lg_nom: u8, rf: ResizeFactor) -> u8 { ssm_spec((lg_nom + 1) as u8, 5, rf.lg()) }
+spec fn same_config(a: ThetaHashTable, b: ThetaHashTable) -> bool {
+    a.lg_nom_size == b.lg_nom_size && a.lg_max_size == b.lg_max_size && a.resize_factor == b.resize_factor
+    && a.sampling_probability == b.sampling_probability && a.hash_seed == b.hash_seed
+}
+// 15/16 of 2k
+spec fn max_load(lg_nom: u8) -> int { pow2((lg_nom + 1) as nat) as int * 15 / 16 }
+proof fn lemma_cap_le_max_load(lg_cur: u8, lg_nom: u8)
+  requires 5 <= lg_cur <= lg_nom + 1, lg_nom + 1 <= 27
+  ensures cap_spec(lg_cur, lg_nom) <= max_load(lg_nom), pow2(lg_nom as nat) <= max_load(lg_nom),
+          lg_cur <= lg_nom ==> cap_spec(lg_cur, lg_nom) < pow2(lg_nom as nat)
+{
+    lemma2_to64();
+    lemma_pow2_pos(lg_cur as nat);
+    lemma_pow2_unfold((lg_nom + 1) as nat);
+    lemma_pow2_strictly_increases(3, lg_nom as nat);
+    if lg_cur <= lg_nom {
+        if lg_cur < lg_nom { lemma_pow2_strictly_increases(lg_cur as nat, lg_nom as nat); }
+    }
+}
+proof fn lemma_occ_zero(es: Seq<u64>)
+  ensures occ64(es).len() == 0 <==> (forall|i: int| 0 <= i < es.len() ==> es[i] == 0)
+{
+    vstd::set_lib::lemma_int_range(0, es.len() as int);
+    let all = Set::range(0, es.len() as int);
+    assert(occ64(es).subset_of(all));
+    vstd::set_lib::lemma_len_subset(occ64(es), all);
+    if occ64(es).len() == 0 {
+        assert forall|i: int| 0 <= i < es.len() implies es[i] == 0 by {
+            if es[i] != 0 { assert(occ64(es).contains(i)); assert(occ64(es) =~= Set::<int>::empty()); }
+        }
+    }
+    if forall|i: int| 0 <= i < es.len() ==> es[i] == 0 {
+        assert(occ64(es) =~= Set::<int>::empty());
+    }
+}
+
 // ================= ThetaHashTable::try_insert (real body + overlay) =================
 struct ThetaHashTable {
 lg_cur_size : u8 , lg_nom_size : u8 , lg_max_size : u8 , resize_factor : ResizeFactor , sampling_probability : f32 , hash_seed : u64 , theta : u64 , entries : Vec < u64 > , num_entries : usize , }
 
+
 #[derive(Clone, Copy)]
 enum ResizeFactor { X1, X2, X4, X8 }
 impl ResizeFactor {
-    fn lg_value(self) -> (r: u8) ensures r == self.lg() {
-        match self {
-            ResizeFactor::X1 => 0,
-            ResizeFactor::X2 => 1,
-            ResizeFactor::X4 => 2,
-            ResizeFactor::X8 => 3,
-        }
-    }
+    fn lg_value ( self ) -> ( r : u8 ) ensures r == self . lg ( ) {
+match self {
+ResizeFactor :: X1 => 0 , ResizeFactor :: X2 => 1 , ResizeFactor :: X4 => 2 , ResizeFactor :: X8 => 3 , }
+}
+
     spec fn lg(self) -> u8 { match self { ResizeFactor::X1 => 0u8, ResizeFactor::X2 => 1u8, ResizeFactor::X4 => 2u8, ResizeFactor::X8 => 3u8 } }
 }
 spec fn vals(es: Seq<u64>) -> ISet<u64> { ISet::new(|c: u64| c != 0 && holds(es, c)) }
@@ -407,6 +493,7 @@ impl ThetaHashTable {
         &&& self.num_entries <= cap_spec(self.lg_cur_size, self.lg_nom_size)
         &&& forall|i: int| 0 <= i < self.entries@.len() ==> self.entries@[i] < self.theta || self.entries@[i] == 0
         &&& (self.lg_cur_size <= self.lg_nom_size ==> self.resize_factor.lg() > 0)
+        &&& self.theta <= MAX_THETA
     }
     // like wf but possibly one over capacity (state between the store and the resize/rebuild)
     spec fn wf_over(&self) -> bool {
@@ -418,6 +505,29 @@ impl ThetaHashTable {
         &&& self.num_entries == cap_spec(self.lg_cur_size, self.lg_nom_size) + 1
         &&& forall|i: int| 0 <= i < self.entries@.len() ==> self.entries@[i] < self.theta || self.entries@[i] == 0
         &&& (self.lg_cur_size <= self.lg_nom_size ==> self.resize_factor.lg() > 0)
+        &&& self.theta <= MAX_THETA
+    }
+
+    // state accepted by rebuild: more than k entries (trim), at most one over capacity (try_insert)
+    spec fn wf_big(&self) -> bool {
+        &&& 5 <= self.lg_cur_size <= self.lg_max_size
+        &&& self.lg_max_size == self.lg_nom_size + 1
+        &&& self.lg_max_size <= 27
+        &&& tbl_ok(self.entries@, self.lg_cur_size)
+        &&& self.num_entries == occ64(self.entries@).len()
+        &&& pow2(self.lg_nom_size as nat) < self.num_entries <= cap_spec(self.lg_cur_size, self.lg_nom_size) + 1
+        &&& forall|i: int| 0 <= i < self.entries@.len() ==> self.entries@[i] < self.theta || self.entries@[i] == 0
+        &&& (self.lg_cur_size <= self.lg_nom_size ==> self.resize_factor.lg() > 0)
+        &&& self.theta <= MAX_THETA
+    }
+    // the state `new` builds and `reset` restores
+    spec fn is_initial(&self) -> bool {
+        &&& self.lg_cur_size == init_lg(self.lg_nom_size, self.resize_factor)
+        &&& self.lg_max_size == self.lg_nom_size + 1
+        &&& self.entries@.len() == pow2(self.lg_cur_size as nat)
+        &&& (forall|i: int| 0 <= i < self.entries@.len() ==> self.entries@[i] == 0)
+        &&& self.num_entries == 0
+        &&& self.theta == theta0_spec(self.sampling_probability)
     }
 
     fn find_in_curr_entries ( & self , key : u64 ) -> ( r : Option < usize > ) requires self . lg_cur_size < 32 , self . entries @ . len ( ) == pow2 ( self . lg_cur_size as nat ) ensures match r {
@@ -426,12 +536,15 @@ Some ( idx ) => idx < self . entries @ . len ( ) && ( self . entries @ [ idx as 
 find_in_entries ( & self . entries , key , self . lg_cur_size ) }
 
 
+
     #[verifier::external_body]
     fn get_capacity(&self) -> (r: usize)
       ensures r == cap_spec(self.lg_cur_size, self.lg_nom_size)
     { unimplemented!() }
 
-    fn resize ( & mut self ) requires old ( self ) . wf_over ( ) , old ( self ) . lg_cur_size <= old ( self ) . lg_nom_size ensures final ( self ) . wf ( ) , vals ( final ( self ) . entries @ ) == vals ( old ( self ) . entries @ ) , final ( self ) . theta == old ( self ) . theta , final ( self ) . lg_nom_size == old ( self ) . lg_nom_size , final ( self ) . num_entries == old ( self ) . num_entries {
+    fn resize ( & mut self ) requires old ( self ) . wf_over ( ) , old ( self ) . lg_cur_size <= old ( self ) . lg_nom_size ensures final ( self ) . wf ( ) ,
+/*@C04.resize.set*/ vals ( final ( self ) . entries @ ) == vals ( old ( self ) . entries @ ) ,
+/*@C04.resize.theta*/ final ( self ) . theta == old ( self ) . theta , same_config ( * final ( self ) , * old ( self ) ) , final ( self ) . num_entries == old ( self ) . num_entries {
 let new_lg_size = std :: cmp :: min ( self . lg_cur_size + self . resize_factor . lg_value ( ) , self . lg_max_size , ) ;
 proof {
 lemma_pow2_bound32 ( new_lg_size ) ;
@@ -557,7 +670,11 @@ lemma_resize_cap ( old ( self ) . lg_cur_size , new_lg_size , self . lg_nom_size
 }
 
 
-    fn rebuild ( & mut self ) requires old ( self ) . wf_over ( ) , old ( self ) . lg_cur_size > old ( self ) . lg_nom_size ensures final ( self ) . wf ( ) , final ( self ) . theta < old ( self ) . theta , final ( self ) . lg_nom_size == old ( self ) . lg_nom_size , vals ( final ( self ) . entries @ ) == vals ( old ( self ) . entries @ ) . filter ( | c : u64 | c < final ( self ) . theta ) , final ( self ) . num_entries == pow2 ( final ( self ) . lg_nom_size as nat ) {
+
+    fn rebuild ( & mut self ) requires old ( self ) . wf_big ( ) , old ( self ) . lg_cur_size > old ( self ) . lg_nom_size ensures final ( self ) . wf ( ) ,
+/*@C04.rebuild.theta*/ 0 < final ( self ) . theta < old ( self ) . theta , same_config ( * final ( self ) , * old ( self ) ) ,
+/*@C04.rebuild.smallest*/ vals ( final ( self ) . entries @ ) == vals ( old ( self ) . entries @ ) . filter ( | c : u64 | c < final ( self ) . theta ) ,
+/*@C04.rebuild.count*/ final ( self ) . num_entries == pow2 ( final ( self ) . lg_nom_size as nat ) {
 let ghost es = self . entries @ ;
 vx_retain_nonzero ( & mut self . entries ) ;
 let ghost cs = self . entries @ ;
@@ -608,7 +725,7 @@ lemma_empty_table_ok ( new_entries @ , self . lg_cur_size ) ;
 assert ( occ64 ( new_entries @ ) . len ( ) == 0 ) ;
 }
 let mut vx_i1 = 0 ;
-while vx_i1 < lesser . len ( ) invariant vx_i1 <= lz . len ( ) , lesser @ == lz , lz . len ( ) == k , k == pow2 ( self . lg_nom_size as nat ) , k < new_entries @ . len ( ) , self . lg_cur_size == old ( self ) . lg_cur_size , self . lg_cur_size < 32 , forall | a : int | 0 <= a < lz . len ( ) ==> lz [ a ] != 0 , forall | a : int , b : int | 0 <= a < lz . len ( ) && 0 <= b < lz . len ( ) && a != b ==> lz [ a ] != lz [ b ] , tbl_ok ( new_entries @ , self . lg_cur_size ) , forall | c : u64 | vals ( new_entries @ ) . contains ( c ) <==> ( exists | t : int | 0 <= t < vx_i1 && lz [ t ] == c ) , occ64 ( new_entries @ ) . len ( ) == vx_i1 , num_inserted == vx_i1 , decreases lz . len ( ) - vx_i1 {
+while vx_i1 < lesser . len ( ) invariant vx_i1 <= lz . len ( ) , lesser @ == lz , lz . len ( ) == k , k == pow2 ( self . lg_nom_size as nat ) , k < new_entries @ . len ( ) , self . lg_cur_size == old ( self ) . lg_cur_size , self . lg_cur_size < 32 , same_config ( * self , * old ( self ) ) , self . resize_factor == old ( self ) . resize_factor , forall | a : int | 0 <= a < lz . len ( ) ==> lz [ a ] != 0 , forall | a : int , b : int | 0 <= a < lz . len ( ) && 0 <= b < lz . len ( ) && a != b ==> lz [ a ] != lz [ b ] , tbl_ok ( new_entries @ , self . lg_cur_size ) , forall | c : u64 | vals ( new_entries @ ) . contains ( c ) <==> ( exists | t : int | 0 <= t < vx_i1 && lz [ t ] == c ) , occ64 ( new_entries @ ) . len ( ) == vx_i1 , num_inserted == vx_i1 , decreases lz . len ( ) - vx_i1 {
 let entry = & lesser [ vx_i1 ] ;
 if let Some ( idx ) = find_in_entries ( & new_entries , * entry , self . lg_cur_size ) {
 let ghost ne0 = new_entries @ ;
@@ -701,7 +818,15 @@ assert ( vals ( self . entries @ ) . contains ( c ) ) ;
 }
 
 
-    fn try_insert ( & mut self , hash : u64 ) -> ( r : bool ) requires old ( self ) . wf ( ) , hash < old ( self ) . theta ensures final ( self ) . wf ( ) , final ( self ) . lg_nom_size == old ( self ) . lg_nom_size , final ( self ) . theta <= old ( self ) . theta , hash == 0 ==> ! r && final ( self ) . entries @ == old ( self ) . entries @ && final ( self ) . theta == old ( self ) . theta , hash != 0 ==> r == ! holds ( old ( self ) . entries @ , hash ) , hash != 0 ==> vals ( final ( self ) . entries @ ) == vals ( old ( self ) . entries @ ) . insert ( hash ) . filter ( | c : u64 | c < final ( self ) . theta ) , {
+
+    fn try_insert ( & mut self , hash : u64 ) -> ( r : bool ) requires old ( self ) . wf ( ) , hash < old ( self ) . theta ensures final ( self ) . wf ( ) , same_config ( * final ( self ) , * old ( self ) ) ,
+/*@C04.insert.theta*/ 0 < final ( self ) . theta <= old ( self ) . theta , hash == 0 ==> ! r && final ( self ) . entries @ == old ( self ) . entries @ && final ( self ) . theta == old ( self ) . theta && final ( self ) . num_entries == old ( self ) . num_entries ,
+/*@C04.insert.new*/ hash != 0 ==> r == ! holds ( old ( self ) . entries @ , hash ) ,
+/*@C04.insert.set*/ hash != 0 ==> vals ( final ( self ) . entries @ ) == vals ( old ( self ) . entries @ ) . insert ( hash ) . filter ( | c : u64 | c < final ( self ) . theta ) ,
+/*@C18.theta.load*/ final ( self ) . num_entries <= max_load ( final ( self ) . lg_nom_size ) , {
+proof {
+lemma_cap_le_max_load ( self . lg_cur_size , self . lg_nom_size ) ;
+}
 if hash == 0 {
 return false ;
 }
@@ -779,6 +904,9 @@ self . resize ( ) ;
 else {
 let ghost es1 = self . entries @ ;
 let ghost th1 = self . theta ;
+proof {
+lemma_rebuild_counts ( self . lg_cur_size , self . lg_nom_size ) ;
+}
 self . rebuild ( ) ;
 proof {
 assert ( vals ( es1 ) . filter ( | c : u64 | c < self . theta ) =~= vals ( es0 ) . insert ( hash ) . filter ( | c : u64 | c < self . theta ) ) ;
@@ -786,6 +914,136 @@ assert ( vals ( es1 ) . filter ( | c : u64 | c < self . theta ) =~= vals ( es0 )
 }
 }
 true }
+
+
+
+    fn new ( lg_nom_size : u8 , resize_factor : ResizeFactor , sampling_probability : f32 , hash_seed : u64 , ) -> ( r : Self ) requires 5 <= lg_nom_size <= 26 ensures
+/*@C04.new.wf*/ r . wf ( ) ,
+/*@C04.new.initial*/ r . is_initial ( ) , r . lg_nom_size == lg_nom_size , r . resize_factor == resize_factor , r . sampling_probability == sampling_probability , r . hash_seed == hash_seed ,
+/*@C04.new.empty*/ forall | c : u64 | ! vals ( r . entries @ ) . contains ( c ) , {
+let lg_max_size = lg_nom_size + 1 ;
+let lg_cur_size = starting_sub_multiple ( lg_max_size , MIN_LG_K , resize_factor . lg_value ( ) ) ;
+proof {
+lemma_pow2_bound32 ( lg_cur_size ) ;
+lemma_shl_usize ( lg_cur_size ) ;
+}
+let size = if lg_cur_size > 0 {
+1 << lg_cur_size }
+else {
+0 }
+;
+let entries = vec! [ 0u64 ;
+size ] ;
+proof {
+lemma_empty_table_ok ( entries @ , lg_cur_size ) ;
+}
+Self {
+lg_cur_size , lg_nom_size , lg_max_size , resize_factor , sampling_probability , theta : starting_theta_from_sampling_probability ( sampling_probability ) , hash_seed , entries , num_entries : 0 , }
+}
+
+
+    fn hash_and_screen < T : Hash > ( & mut self , value : T ) -> ( r : u64 ) ensures * final ( self ) == * old ( self ) ,
+/*@C04.screen*/ r == ( if ( hash_spec ( old ( self ) . hash_seed , value ) >> 1 ) < old ( self ) . theta {
+hash_spec ( old ( self ) . hash_seed , value ) >> 1 }
+else {
+0 }
+) , r != 0 ==> r < old ( self ) . theta , {
+let ( h1 , _ ) = vx_hash128 ( self . hash_seed , value ) ;
+let hash = h1 >> 1 ;
+if hash >= self . theta {
+return 0 ;
+}
+hash }
+
+
+    fn trim ( & mut self ) requires old ( self ) . wf ( ) ensures final ( self ) . wf ( ) , same_config ( * final ( self ) , * old ( self ) ) ,
+/*@C04.trim.theta*/ final ( self ) . theta <= old ( self ) . theta && ( old ( self ) . theta > 0 ==> final ( self ) . theta > 0 ) ,
+/*@C04.trim.smallest*/ vals ( final ( self ) . entries @ ) == vals ( old ( self ) . entries @ ) . filter ( | c : u64 | c < final ( self ) . theta ) ,
+/*@C04.trim.count*/ final ( self ) . num_entries == ( if old ( self ) . num_entries <= pow2 ( old ( self ) . lg_nom_size as nat ) {
+old ( self ) . num_entries as int }
+else {
+pow2 ( old ( self ) . lg_nom_size as nat ) as int }
+) ,
+/*@C18.theta.load*/ final ( self ) . num_entries <= pow2 ( final ( self ) . lg_nom_size as nat ) ,
+/*@C04.trim.noop*/ old ( self ) . num_entries <= pow2 ( old ( self ) . lg_nom_size as nat ) ==> final ( self ) . entries @ == old ( self ) . entries @ && final ( self ) . theta == old ( self ) . theta , {
+proof {
+lemma_pow2_bound32 ( self . lg_nom_size ) ;
+lemma_shl_usize ( self . lg_nom_size ) ;
+lemma_cap_le_max_load ( self . lg_cur_size , self . lg_nom_size ) ;
+let es = self . entries @ ;
+assert ( vals ( es ) . filter ( | c : u64 | c < self . theta ) =~= vals ( es ) ) by {
+assert forall | c : u64 | vals ( es ) . contains ( c ) implies c < self . theta by {
+let i = choose | i : int | 0 <= i < es . len ( ) && es [ i ] == c ;
+}
+}
+}
+if self . num_entries > ( 1 << self . lg_nom_size ) {
+self . rebuild ( ) ;
+}
+}
+
+
+    fn reset ( & mut self ) requires old ( self ) . wf ( ) ensures final ( self ) . wf ( ) , same_config ( * final ( self ) , * old ( self ) ) ,
+/*@C04.reset.initial*/ final ( self ) . is_initial ( ) ,
+/*@C04.reset.empty*/ forall | c : u64 | ! vals ( final ( self ) . entries @ ) . contains ( c ) , {
+let init_theta = starting_theta_from_sampling_probability ( self . sampling_probability ) ;
+let init_lg_cur = starting_sub_multiple ( self . lg_nom_size + 1 , MIN_LG_K , self . resize_factor . lg_value ( ) , ) ;
+proof {
+lemma_pow2_bound32 ( init_lg_cur ) ;
+lemma_shl_usize ( init_lg_cur ) ;
+}
+if self . entries . len ( ) != 1 << init_lg_cur {
+self . entries . resize ( 1 << init_lg_cur , 0 ) ;
+}
+self . entries . fill ( 0 ) ;
+self . num_entries = 0 ;
+self . theta = init_theta ;
+self . lg_cur_size = init_lg_cur ;
+proof {
+lemma_empty_table_ok ( self . entries @ , self . lg_cur_size ) ;
+}
+}
+
+
+    fn num_entries ( & self ) -> ( r : usize ) ensures r == self . num_entries ,
+/*@C18.theta.load*/ self . wf ( ) ==> r <= max_load ( self . lg_nom_size ) , {
+proof {
+if self . wf ( ) {
+lemma_cap_le_max_load ( self . lg_cur_size , self . lg_nom_size ) ;
+}
+}
+self . num_entries }
+
+
+    fn theta ( & self ) -> ( r : u64 ) ensures r == self . theta {
+self . theta }
+
+
+    fn is_empty ( & self ) -> ( r : bool ) ensures r == ( self . num_entries == 0 ) ,
+/*@C04.is_empty*/ self . wf ( ) ==> ( r <==> forall | c : u64 | ! vals ( self . entries @ ) . contains ( c ) ) , {
+proof {
+if self . wf ( ) {
+let es = self . entries @ ;
+lemma_occ_zero ( es ) ;
+if self . num_entries == 0 {
+assert forall | c : u64 | ! vals ( es ) . contains ( c ) by {
+if vals ( es ) . contains ( c ) {
+let i = choose | i : int | 0 <= i < es . len ( ) && es [ i ] == c ;
+}
+}
+}
+else {
+let i = choose | i : int | 0 <= i < es . len ( ) && es [ i ] != 0 ;
+assert ( holds ( es , es [ i ] ) ) ;
+assert ( vals ( es ) . contains ( es [ i ] ) ) ;
+}
+}
+}
+self . num_entries == 0 }
+
+
+    fn lg_nom_size ( & self ) -> ( r : u8 ) ensures r == self . lg_nom_size {
+self . lg_nom_size }
 
 }
 
